@@ -14,14 +14,26 @@ pub fn run_deque<const N: usize>(script: &Script, keep_trace: bool) -> Outcome {
     let mut ex = Ex::<N>::new(script, keep_trace);
     ex.poison();
     for (i, st) in script.steps.iter().enumerate() {
-        ex.step(i, st);
+        // crate accessors called by the observers run outside operation windows: a panic there
+        // (overflow check, debug assertion, bounds) is a violation, not a harness crash
+        let r = std::panic::catch_unwind(std::panic::AssertUnwindSafe(|| ex.step(i, st)));
+        if r.is_err() {
+            let (c, m) = crate::exec::classify_stray_panic(cls::VIEW | cls::PANIC_SPEC);
+            ex.fail(c, m);
+        }
         if ex.fail.is_some() {
             break;
         }
     }
     if ex.fail.is_none() {
-        ex.final_drop(script.steps.len());
-    } else {
+        let n = script.steps.len();
+        let r = std::panic::catch_unwind(std::panic::AssertUnwindSafe(|| ex.final_drop(n)));
+        if r.is_err() {
+            let (c, m) = crate::exec::classify_stray_panic(cls::LEDGER | cls::PANIC_SPEC);
+            ex.fail(c, m);
+        }
+    }
+    if ex.fail.is_some() {
         ex.abandon();
     }
     crate::alloc::set_fresh(false, 0);
@@ -82,7 +94,11 @@ impl<const N: usize> Ex<N> {
                         self.models[b] = items.iter().map(|i| (i.id, i.val)).collect();
                     }
                 } else {
-                    let own = if b == x { out.own } else { 0 };
+                    let mut own = if b == x { out.own } else { 0 };
+                    if self.window_panicked {
+                        // a documented panic must leave the buffer unchanged (C11)
+                        own |= cls::PANIC_SPEC;
+                    }
                     self.check_contents(b, &items, own);
                 }
             }
@@ -95,7 +111,7 @@ impl<const N: usize> Ex<N> {
             self.check_hook_violations(out.own);
         }
         if self.fail.is_none() {
-            self.check_conservation(self.faulted);
+            self.check_conservation(self.faulted, out.own);
         }
         // RELOC (C20): only for calls that returned normally
         if self.fail.is_none() && self.faulted.is_none() && !self.window_panicked {
@@ -277,7 +293,7 @@ impl<const N: usize> Ex<N> {
         drop(hand);
         self.check_hook_violations(0);
         if self.fail.is_none() {
-            self.check_conservation(self.run_family);
+            self.check_conservation(self.run_family, 0);
         }
         let live = H.with(|h| h.borrow().live);
         if self.fail.is_none() && live != 0 {
